@@ -4,7 +4,7 @@
    controller update, which dependency results a task could NOT see when it was
    started, the outcome of Run, the results merged into the configuration).
    ExtrOcamlBasic only; nat stays a Coq datatype.  No Extract Constant. *)
-From Verif Require Import Flow.Model Flow.Spec.
+From Verif Require Import Flow.Model Flow.Spec Flow.Discover.
 From Coq Require Import List Bool Arith.
 Import ListNotations.
 
@@ -57,3 +57,22 @@ Definition c18_accepts (w : workflow) (ls : list label) : bool :=
    (wf_known, wf_trig, wf_closed, acyclic) *)
 Definition c18_hyps (w : workflow) : bool * bool * bool * bool :=
   (wf_known_b w, wf_trig_b w, wf_closed_b w, acyclic_b w).
+
+(* ------------------------------------------------------------------ *)
+(* configuration-driven replay (Flow/Discover.v): the dependency graph is not given
+   but DISCOVERED by the model from the task-graph configuration, along the
+   completion order of the observed label sequence (kdeps_wf_of_run:
+   the workflow of the run reproduces the accumulated discoveries). *)
+Definition c18_observe_cfg (cfg : config) (ls : list label)
+  : list obs * option (outcome * list nat) :=
+  c18_observe (wf_of_run cfg (completions ls)) ls.
+
+(* markTaskDependencies in the configuration containing the results [res]: every task
+   of that configuration with its discovered dependencies (Impl) and with what the
+   Spec reading of the property asks for *)
+Definition c18_discover (cfg : config) (res : list nat) : list (nat * (list nat * list nat)) :=
+  map (fun t => (t, (discover (dfuel cfg) cfg res t, discover_spec (dfuel cfg) cfg res t)))
+      (tasks_at cfg res).
+
+Definition c18_cfg_hyps (cfg : config) (ls : list label) : bool * bool * bool * bool :=
+  c18_hyps (wf_of_run cfg (completions ls)).
